@@ -278,3 +278,66 @@ def r7_reuse(ctx):
 
 
 RULES += [r6_compare_leaf, r7_reuse]
+
+
+def r8_dropped_key_meaning(ctx):
+    ctx.rule("C19.r8", "a merge operator drops a binding (returns no value) only for the value that a MISSING key denotes in that map: "
+             "top in maps whose order says default_is_top(), bottom otherwise", floor=6)
+    from ..match import guard_truth
+    files = ("include/crab/domains/separate_domains.hpp", "include/crab/domains/discrete_domains.hpp")
+    n = 0
+    for f in files:
+        if not ctx.db.has_file(f):
+            continue
+        # default of each container class: <container>::domain_po::default_is_top
+        defaults = {}
+        for fn in ctx.db.fns(f, name="default_is_top"):
+            rs = rets(fn["body"])
+            if len(rs) == 1 and isinstance(strip(rs[0].get("v")), dict) and strip(rs[0]["v"]).get("k") == "lit":
+                outer = "::".join((fn.get("cpk") or "").split("::")[:-1])
+                defaults[outer] = strip(rs[0]["v"]).get("v") == "true"
+        for fn in ctx.db.fns(f, name="apply"):
+            cpk = fn.get("cpk") or ""
+            if not cpk.split("::")[-1].endswith("_op"):
+                continue
+            outer = "::".join(cpk.split("::")[:-1])
+            if outer not in defaults:
+                continue
+            body = fn["body"]
+            g = paths.guards(body)
+            for r in rets(body):
+                v = strip(r.get("v"))
+                parts = v.get("a", []) if isinstance(v, dict) else []
+                if len(parts) != 2:
+                    continue
+                flag = strip(parts[0])
+                if isinstance(flag, dict) and flag.get("k") == "lit" and flag.get("v") == "true":
+                    continue          # {true, _}: the whole map becomes bottom
+                has_payload = any(x.get("k") == "ctor" and "optional" in (callee(x) or {}).get("cpk", "") and x.get("a") for x in walk(parts[1]))
+                if has_payload:
+                    continue
+                n += 1
+                # which value test guards the drop?
+                def mk(nm):
+                    def atom(c):
+                        c = strip(c)
+                        return 1 if (isinstance(c, dict) and c.get("k") == "call" and callee(c) and callee(c)["name"] == nm and not c.get("a")) else 0
+                    return atom
+                under_top = guard_truth(g.get(id(r), ()), mk("is_top"), body) is True
+                under_bot = guard_truth(g.get(id(r), ()), mk("is_bottom"), body) is True
+                want_top = defaults[outer]
+                okd = (under_top and want_top) or (under_bot and not want_top)
+                if okd:
+                    ctx.ok("%s::apply drops the binding only for %s" % (cpk.split("::")[-2] + "::" + cpk.split("::")[-1], "top" if want_top else "bottom"), fn, r)
+                elif under_top or under_bot:
+                    ctx.bad("%s::apply drops the binding when the combined value is %s, but in %s a missing key means %s: the dropped key "
+                            "silently becomes %s (e.g. the join is no longer an upper bound)" %
+                            (cpk.split("::")[-1], "top" if under_top else "bottom", outer.split("::")[-1], "top" if want_top else "bottom",
+                             "top" if want_top else "bottom"), fn, r, sig="dropped-key:%s:%s" % (outer.split("::")[-1], cpk.split("::")[-1]))
+                else:
+                    ctx.undecided("%s::apply drops a binding under a condition that is neither is_top() nor is_bottom()" % cpk.split("::")[-1], fn, r)
+    if n == 0:
+        ctx.fail("rule C19.r8: no dropped binding found")
+
+
+RULES += [r8_dropped_key_meaning]
